@@ -93,9 +93,9 @@ func c08Scens(tier string) []msScen {
 					}
 				}
 				for i, s1 := range scripts {
-					b1 := bound + 1
-					if tier != "thorough" {
-						b1 = bound
+					b1 := bound
+					if tier == "thorough" && wr.writes <= 3 {
+						b1 = bound + 1 // one more deviation for a single reader against the short writer scripts
 					}
 					out = append(out, msScen{Prop: "C08", Cfg: b.cfg, Warm: warm, Writes: wr.writes, Params: wr.params, LongSeg: wr.long, Close: wr.writes == 4, Reqs: [][]string{s1}, Bound: b1, Shards: 1})
 					// two readers
@@ -106,7 +106,7 @@ func c08Scens(tier string) []msScen {
 						if tier != "thorough" && !((i*7+j)%23 == 0 && wr.writes == 3) {
 							continue
 						}
-						if tier == "thorough" && !((i*7+j)%5 == 0 && (wr.writes == 3 || wr.writes == 5)) {
+						if tier == "thorough" && !((i*7+j)%9 == 0 && (wr.writes == 3 || wr.writes == 5)) {
 							continue
 						}
 						out = append(out, msScen{Prop: "C08", Cfg: b.cfg, Warm: warm, Writes: wr.writes, Params: wr.params, LongSeg: wr.long, Reqs: [][]string{s1, s2}, Bound: bound, Shards: 1})
